@@ -1,6 +1,6 @@
 //! C30 — tick-scoped collections behave like finite batches (production code generation).
 use serde::{Deserialize, Serialize};
-use vcommon::{Args, Reporter, Rng, Tier, hash_of, json};
+use vcommon::{Args, Reporter, Rng, hash_of, json};
 
 use crate::drive::{KV, Trace};
 
@@ -539,7 +539,6 @@ pub fn run(args: &Args) {
     // (A) bounded-exhaustive: every history of T ticks over the 13 small batches; T = 3 for one-input
     // flows (2197 histories), T = 2 with all pairs for two-input flows (28 561 histories).
     let sb = small_batches();
-    let mut exhaustive_done = true;
     for f in &fl {
         match f.run {
             Runner::One(_) => {
@@ -553,18 +552,10 @@ pub fn run(args: &Args) {
                 }
             }
             Runner::Two(_) => {
-                // quick: a seeded third of the pair histories; thorough: all of them
-                let all = args.tier == Tier::Thorough;
-                if !all {
-                    exhaustive_done = false;
-                }
                 for a0 in &sb {
                     for b0 in &sb {
                         for a1 in &sb {
                             for b1 in &sb {
-                                if !all && !rng.chance(1, 3) {
-                                    continue;
-                                }
                                 let ticks = vec![(a0.clone(), b0.clone()), (a1.clone(), b1.clone())];
                                 check_case(&mut rep, &fl, &mk(f, ticks), true);
                             }
@@ -575,7 +566,7 @@ pub fn run(args: &Args) {
         }
     }
     // (B) random: longer histories, larger batches, wider domains, empty ticks in between.
-    let n_random = args.budget(600, 12_000, 5);
+    let n_random = args.budget(3000, 60_000, 5);
     for f in &fl {
         for _ in 0..n_random {
             let t = 2 + rng.below(6);
@@ -605,12 +596,12 @@ pub fn run(args: &Args) {
     rep.finish(
         "Corpus of 40 Hydro tick programs compiled by generate_embedded (production DFIR codegen), each driven \
          tick by tick with harness-chosen batches: (A) every 3-tick history over the 13 batches of length <= 2 \
-         from {(0,1),(0,2),(1,1)} for one-input flows, every (thorough) / a seeded third (quick) of the 2-tick \
-         histories over pairs of those batches for two-input flows; (B) random histories of 2-7 ticks, batches \
+         from {(0,1),(0,2),(1,1)} for one-input flows, every 2-tick history over pairs of those batches for \
+         two-input flows; (B) random histories of 2-7 ticks, batches \
          of <= 5 items, 1-4 keys, 2-7 values, 20% empty ticks; 4 empty ticks appended. Per tick the observed \
          rows are compared with plain-Rust batch semantics (cross-tick reference for defer_tick / tick cycles / \
          across_ticks / first-tick / snapshot flows); tick-local flows are re-run on each batch in isolation. \
          Non-trivial = at least two ticks received a non-empty chunk.",
-        exhaustive_done,
+        true,
     );
 }
